@@ -1,19 +1,29 @@
 #!/bin/bash
-# Runs registered checks against /repo with a seeded change applied, then restores /repo.
+# Runs registered checks against a scratch worktree of /repo with a seeded change applied; /repo itself is not touched.
 #   tools/seedrun.sh <name under /verif/seeded> <PROP> [<PROP> ...]     (env TIER=quick|thorough, RUNS=n)
-# Evidence and replays of these runs go to /verif/seeded/<name>/, never to /verif/evidence or /verif/replays.
+# The driver builds from the scratch tree (VERIF_EXPERIMENT_REPO); evidence and replays of these runs go to
+# /verif/seeded/<name>/, never to /verif/evidence or /verif/replays. Equivalent by hand:
+#   git -C /repo apply seeded/<name>/patch.diff; ./bin/check <PROP> --tier quick; git -C /repo checkout -- .
 set -u
 name=$1; shift
 d=/verif/seeded/$name
 [ -f "$d/patch.diff" ] || { echo "no $d/patch.diff"; exit 2; }
-if [ -n "$(git -C /repo status --porcelain)" ]; then echo "/repo is not clean"; exit 2; fi
-git -C /repo apply "$d/patch.diff" || { echo "patch does not apply"; exit 2; }
-trap 'git -C /repo checkout -- . ; git -C /repo status --porcelain' EXIT
-export VERIF_EVIDENCE_DIR=$d/evidence VERIF_REPLAY_DIR=$d/replays
+wt=/tmp/seedrun-$name-$$
+base=HEAD
+[ -f "$d/base-commit" ] && base=$(cat "$d/base-commit")
+git -C /repo worktree add --detach -q "$wt" HEAD || { echo "cannot create worktree"; exit 2; }
+trap 'git -C /repo worktree remove --force "$wt" 2>/dev/null; git -C /repo worktree prune' EXIT
+if [ "$base" != HEAD ]; then
+  # the change was made for an older version of the files it touches (a later fix rewrote that code): those files are taken
+  # from the base commit
+  for f in $(grep '^diff --git' "$d/patch.diff" | sed 's/.* b\///'); do git -C "$wt" checkout -q "$base" -- "$f"; done
+fi
+git -C "$wt" apply "$d/patch.diff" || { echo "patch does not apply"; exit 2; }
+export VERIF_EXPERIMENT_REPO=$wt VERIF_EVIDENCE_DIR=$d/evidence VERIF_REPLAY_DIR=$d/replays
 cd /verif
 for p in "$@"; do
   ./bin/check $p --tier ${TIER:-quick} ${RUNS:+--runs $RUNS} > "$d/check-$p.log" 2>&1
   rc=$?
   echo "== $name  check $p: exit $rc   $(grep -c '^VIOLATION' "$d/check-$p.log") VIOLATION line(s)"
-  grep '^VIOLATION\|^KNOWN-FINDING' "$d/check-$p.log" | cut -c1-220 | head -8
+  grep '^VIOLATION' "$d/check-$p.log" | cut -c1-220 | head -4
 done
